@@ -70,7 +70,7 @@ Definition acct (tr : list wev) : Z * Z * Z * Z := (sum_sym tr, sum_fill tr, sum
 Record wf_p (p : lzp) : Prop := mkWf {
   wf_mlm : 1 <= match_len_max p;
   wf_rf : REQ_FINISH <= req_flush p <= match_len_max p;
-  wf_ea : 0 <= extra_after p;
+  wf_ea : 0 <= extra_after p <= 65536;
   wf_ka : keep_after p = extra_after p + match_len_max p;
   wf_mb : 1 <= mode_before p;
   wf_dict : 1 <= dict_size p;
@@ -346,3 +346,331 @@ Proof.
   - left. rewrite Eq. cbn [pending_size]. split; [reflexivity|exact Hn'].
   - right. split; assumption.
 Qed.
+
+(* ---------------------------------------------------------------------------------------------
+   one consultation of the parser *)
+Definition pidx (e : encd) : Z := read_pos (e_lz e) - read_ahead e.   (* buffer index of the next byte to code *)
+
+(* the state while the parser is being consulted *)
+Record minv (p : lzp) (e : encd) : Prop := mkMinv {
+  mi_lz : lzinv p (e_lz e);
+  mi_ra : -1 <= read_ahead e <= read_pos (e_lz e);
+  mi_K : 0 < pending_size (e_lz e) -> Kp p (e_lz e) \/ read_pos (e_lz e) = write_pos (e_lz e) - 1
+}.
+
+Section Oracle.
+  Variable PS : Type.
+  Variable parse : PS -> Z -> Z -> strat PS.
+  Variable chunkc : PS -> Z -> Z * PS.
+
+  Lemma run_strat_spec p : wf_p p -> forall s e tr, minv p e ->
+    okor (run_strat PS p s e tr) (fun r =>
+      let '(e1, len, full, ps1, tr1) := r in
+      minv p e1 /\
+      (exists k, 0 <= k /\ read_pos (e_lz e1) = read_pos (e_lz e) + k /\ read_ahead e1 = read_ahead e + k /\
+                 (0 < k -> read_ahead e1 <= extra_after p)) /\
+      write_pos (e_lz e1) = write_pos (e_lz e) /\ read_limit (e_lz e1) = read_limit (e_lz e) /\
+      finishing (e_lz e1) = finishing (e_lz e) /\
+      unc_size e1 = unc_size e /\ rc_full e1 = rc_full e /\ g_base e1 = g_base e /\
+      1 <= len <= read_ahead e1 + 1 /\ read_ahead e1 - len < mode_before p /\
+      pending_size (e_lz e) <= pending_size (e_lz e1) /\
+      (match_len_max p + extra_after p <= write_pos (e_lz e) - pidx e -> pending_size (e_lz e1) = pending_size (e_lz e)) /\
+      acct tr1 = acct tr).
+  Proof.
+    intros W. pose proof W as [W1 W2 W3 W4 W5 W6 W7 W8 W9 W10].
+    induction s as [k IH|c k IH|len full ps|]; intros e tr M.
+    - (* SMove *)
+      pose proof M as [[[Ha Hb] Hc [Hd He] [Hf Hg] Hpb] [Hr1 Hr2] HK].
+      cbn [run_strat].
+      rewrite ck_i32_ok by (unfold I32_MIN, I32_MAX in *; lia). cbn [obind].
+      destruct (Z.eq_dec (read_pos (e_lz e)) (write_pos (e_lz e) - 1)) as [Hend|Hend].
+      + (* the move leaves the data: contract violation *)
+        rewrite move_pos_eq by (unfold REQ_FINISH, I32_MAX in *; lia). cbv zeta. cbn [obind].
+        destruct ((write_pos (e_lz e) - (read_pos (e_lz e) + 1) <? req_flush p) && _);
+          cbn [write_pos read_pos];
+          (destruct (Z.ltb_spec (write_pos (e_lz e) - (read_pos (e_lz e) + 1)) 1); [|lia]); cbn [orb okor]; left; reflexivity.
+      + assert (HK0 : Kp p (e_lz e)).
+        { destruct (Z.eq_dec (pending_size (e_lz e)) 0) as [Hz|Hz]; [left; exact Hz|].
+          destruct HK as [HK|HK]; [lia|exact HK|lia]. }
+        destruct (move_pos_step p (e_lz e) W) as (d1 & ret & E & A & B & C & D & K1 & Hcase & Hbig);
+          try assumption; try (unfold I32_MAX in *; lia).
+        rewrite E. cbn [obind].
+        destruct (Z.ltb_spec (write_pos d1 - read_pos d1) 1); [cbn [orb okor]; left; reflexivity|].
+        destruct (Z.ltb_spec (extra_after p) (read_ahead e + 1)); [cbn [orb okor]; left; reflexivity|].
+        cbn [orb].
+        assert (Hpend1 : 0 <= pending_size d1 <= read_pos d1 + 1 /\ pending_size d1 < req_flush p /\ pending_size (e_lz e) <= pending_size d1).
+        { destruct Hcase as [(? & ? & ?)|(? & ? & ?)]; [|lia]. destruct K1 as [K1|K1]; lia. }
+        eapply okor_weaken.
+        { apply IH. constructor; cbn [e_lz read_ahead].
+          - constructor; lia.
+          - lia.
+          - intros _. left. exact K1. }
+        intros [[[[e1 len] full] ps1] tr1].
+        cbn [e_lz read_ahead unc_size rc_full g_base].
+        intros (M1 & (k1 & Hk1 & Hk2 & Hk3 & Hk4) & X1 & X2 & X3 & X4 & X5 & X6 & X7 & X8 & X9 & X10 & X11).
+        split; [exact M1|].
+        split.
+        { exists (k1 + 1). split; [lia|]. split; [lia|]. split; [lia|]. intros _.
+          destruct (Z.eq_dec k1 0); [lia|]. apply Hk4; lia. }
+        split; [congruence|]. split; [congruence|]. split; [congruence|].
+        split; [exact X4|]. split; [exact X5|]. split; [exact X6|]. split; [exact X7|]. split; [exact X8|].
+        split; [lia|].
+        split.
+        { unfold pidx in *. cbn [e_lz read_ahead] in X10. intros Hs.
+          rewrite X10 by lia. apply Hbig. lia. }
+        rewrite X11. reflexivity.
+    - (* SAvail *)
+      pose proof M as [[[Ha Hb] Hc [Hd He] [Hf Hg] Hpb] [Hr1 Hr2] HK].
+      cbn [run_strat].
+      destruct (Z.ltb_spec (read_ahead e) 0); [cbn [orb okor]; left; reflexivity|]. cbn [orb].
+      destruct ((c <? 0) || (keep_after p <? c + read_ahead e)); [cbn [okor]; left; reflexivity|].
+      unfold get_avail. rewrite ck_i32_ok by (unfold I32_MIN, I32_MAX in *; lia). cbn [obind].
+      eapply okor_weaken; [apply IH; exact M|].
+      intros [[[[e1 len] full] ps1] tr1]. auto.
+    - (* SEmit *)
+      cbn [run_strat].
+      destruct (Z.ltb_spec len 1); [cbn [orb okor]; left; reflexivity|].
+      destruct (Z.ltb_spec (read_ahead e + 1) len); [cbn [orb okor]; left; reflexivity|].
+      destruct (Z.leb_spec (mode_before p) (read_ahead e - len)); [cbn [orb okor]; left; reflexivity|].
+      cbn [orb okor].
+      split; [exact M|]. split; [exists 0; repeat split; lia|].
+      repeat split; try reflexivity; lia.
+    - cbn [run_strat okor]. left; reflexivity.
+  Qed.
+
+  (* the encoder between two symbols.  [org] ties the state to the event trace: the number of
+     bytes accepted so far is org + g_base + write_pos. *)
+  Record einv (p : lzp) (org : Z) (e : encd) (tr : list wev) : Prop := mkEinv {
+    ei_lz : lzinv p (e_lz e);
+    ei_ra : -1 <= read_ahead e <= read_pos (e_lz e);
+    ei_mb : read_ahead e < mode_before p;
+    ei_base : 0 <= g_base e /\ g_base e mod 64 = 0;
+    ei_hist : g_base e = 0 \/ keep_before p <= read_pos (e_lz e) + 1;
+    ei_dict : g_base e = 0 \/ dict_size p <= pidx e;
+    ei_pidx1 : read_pos (e_lz e) = -1 \/ 1 <= pidx e;
+    ei_unc : 0 <= unc_size e;
+    ei_U : 0 < pending_size (e_lz e) ->
+           Kp p (e_lz e) \/ (read_ahead e = -1 /\ read_limit (e_lz e) <= read_pos (e_lz e)) \/
+           read_pos (e_lz e) = write_pos (e_lz e) - 1;
+    ei_fill : sum_fill tr = org + g_base e + write_pos (e_lz e);
+    ei_sym : sum_sym tr + sum_abs tr = org + logical_pos e;
+    ei_chunk : sum_chunk tr + unc_size e = org + logical_pos e;
+    ei_org : org <= sum_chunk tr
+  }.
+
+  (* uncompressed_size (u32) cannot overflow while the current chunk plus what is still uncoded
+     in the window stays below 2^32 *)
+  Definition cap (e : encd) : Prop := unc_size e + (write_pos (e_lz e) - pidx e) <= U32_MAX.
+  (* no consultation possible: has_enough_data(read_ahead + 1) is false *)
+  Definition quiet (e : encd) : Prop := read_limit (e_lz e) <= pidx e - 1.
+
+  Lemma logical_pidx e : logical_pos e = g_base e + pidx e.
+  Proof. unfold logical_pos, pidx. lia. Qed.
+
+  Lemma encode_symbol_spec p org ps e tr : wf_p p -> einv p org e tr -> cap e -> 1 <= pidx e ->
+    okor (encode_symbol PS parse p ps e tr) (fun r =>
+      match r with
+      | None => quiet e
+      | Some (e1, ps1, tr1) =>
+          einv p org e1 tr1 /\ cap e1 /\ ~ quiet e /\
+          pidx e < pidx e1 /\ read_pos (e_lz e) <= read_pos (e_lz e1) /\
+          write_pos (e_lz e1) = write_pos (e_lz e) /\ read_limit (e_lz e1) = read_limit (e_lz e) /\
+          finishing (e_lz e1) = finishing (e_lz e) /\ g_base e1 = g_base e /\
+          unc_size e1 = unc_size e + (pidx e1 - pidx e) /\
+          pending_size (e_lz e) <= pending_size (e_lz e1) /\
+          (match_len_max p + extra_after p <= write_pos (e_lz e) - pidx e -> pending_size (e_lz e1) = pending_size (e_lz e))
+      end).
+  Proof.
+    intros W I Hcap Hp1. pose proof W as [W1 W2 W3 W4 W5 W6 W7 W8 W9 W10].
+    pose proof I as [[[Ha Hb] Hc [Hd He] [Hf Hg] Hpb] [Hr1 Hr2] Hmb [Hb1 Hb2] Hh Hdict Hpx Hu HU Hfill Hsym Hchunk Horg].
+    unfold encode_symbol, has_enough_data.
+    rewrite ck_i32_ok by (unfold I32_MIN, I32_MAX in *; lia). cbn [obind].
+    rewrite ck_i32_ok by (unfold I32_MIN, I32_MAX in *; lia). cbn [obind].
+    unfold pidx in Hp1.
+    destruct (Z.ltb_spec (read_pos (e_lz e) - (read_ahead e + 1)) (read_limit (e_lz e))) as [Hq|Hq]; cbn [negb].
+    2:{ cbn [okor]. unfold quiet, pidx. lia. }
+    eapply okor_bind.
+    { apply run_strat_spec; [exact W|]. constructor.
+      - exact (ei_lz _ _ _ _ I).
+      - lia.
+      - intros Hp. destruct (HU Hp) as [K|[[K1 K2]|K]]; [left; exact K | lia | right; exact K]. }
+    intros [[[[e1 len] full] ps1] tr1].
+    intros (M1 & (k1 & Hk1 & Hk2 & Hk3 & Hk4) & X1 & X2 & X3 & X4 & X5 & X6 & X7 & X8 & X9 & X10 & X11).
+    pose proof M1 as [[[Ha' Hb'] Hc' [Hd' He'] [Hf' Hg'] Hpb'] [Hr1' Hr2'] HK'].
+    injection X11 as E1 E2 E3 E4.
+    destruct (Z.ltb_spec (read_ahead e1) 0); [lia|].
+    replace (read_pos (e_lz e1) - read_ahead e1) with (read_pos (e_lz e) - read_ahead e) by lia.
+    destruct (Z.ltb_spec (read_pos (e_lz e) - read_ahead e - 1) 0); [lia|].
+    destruct (Z.leb_spec (buf_size p) (read_pos (e_lz e) - read_ahead e)); [lia|]. cbn [orb].
+    rewrite as_i32_id by (unfold I32_MIN, I32_MAX in *; lia).
+    rewrite ck_i32_ok by (unfold I32_MIN, I32_MAX in *; lia). cbn [obind].
+    unfold cap, pidx in Hcap.
+    rewrite ck_u32_ok by (unfold U32_MAX in *; lia). cbn [obind okor].
+    assert (Hpi : pidx (mkEncd (e_lz e1) (read_ahead e1 - len) (unc_size e1 + len) full (g_base e1)) = pidx e + len).
+    { unfold pidx. cbn [e_lz read_ahead]. lia. }
+    split.
+    { constructor; cbn [e_lz read_ahead unc_size g_base rc_full]; try rewrite Hpi.
+      - exact (mi_lz _ _ M1).
+      - lia.
+      - lia.
+      - rewrite X6. split; assumption.
+      - rewrite X6. destruct Hh; [left; assumption | right; lia].
+      - rewrite X6. destruct Hdict as [Hd0|Hd0]; [left; assumption | right; unfold pidx in *; lia].
+      - right. unfold pidx. lia.
+      - lia.
+      - intros Hp. destruct (HK' Hp) as [K|K]; [left; exact K | right; right; exact K].
+      - cbn [sum_fill]. rewrite X6, X1, E2. exact Hfill.
+      - rewrite logical_pidx. cbn [g_base]. rewrite Hpi, X6.
+        cbn [sum_sym sum_abs]. rewrite E1, E3. rewrite logical_pidx in Hsym. lia.
+      - rewrite logical_pidx. cbn [g_base]. rewrite Hpi, X6.
+        cbn [sum_chunk]. rewrite E4. rewrite logical_pidx in Hchunk. lia.
+      - cbn [sum_chunk]. rewrite E4. exact Horg. }
+    split.
+    { unfold cap. rewrite Hpi. cbn [e_lz unc_size]. unfold pidx. unfold U32_MAX in *. lia. }
+    split; [unfold quiet, pidx; lia|].
+    rewrite Hpi. cbn [e_lz g_base unc_size].
+    split; [lia|]. split; [lia|]. split; [exact X1|]. split; [exact X2|]. split; [exact X3|]. split; [exact X6|].
+    split; [lia|]. split; [exact X9|]. exact X10.
+  Qed.
+
+  Lemma encode_init_spec p org e tr : wf_p p -> einv p org e tr -> cap e -> read_pos (e_lz e) = -1 ->
+    okor (encode_init p e tr) (fun r =>
+      let '(ok, e1, tr1) := r in
+      if ok then
+        einv p org e1 tr1 /\ cap e1 /\ pidx e1 = 1 /\ read_pos (e_lz e1) = 0 /\
+        write_pos (e_lz e1) = write_pos (e_lz e) /\ read_limit (e_lz e1) = read_limit (e_lz e) /\
+        finishing (e_lz e1) = finishing (e_lz e) /\ g_base e1 = g_base e /\ unc_size e1 = 1 /\
+        (req_flush p <= write_pos (e_lz e) -> pending_size (e_lz e1) = 0) /\ ~ quiet e
+      else e1 = e /\ tr1 = tr /\ quiet e).
+  Proof.
+    intros W I Hcap Hns. pose proof W as [W1 W2 W3 W4 W5 W6 W7 W8 W9 W10].
+    pose proof I as [[[Ha Hb] Hc [Hd He] [Hf Hg] Hpb] [Hr1 Hr2] Hmb [Hb1 Hb2] Hh Hdict Hpx Hu HU Hfill Hsym Hchunk Horg].
+    assert (Hra : read_ahead e = -1) by lia.
+    assert (Hbase : g_base e = 0) by (destruct Hh; lia).
+    assert (Hunc : unc_size e = 0).
+    { rewrite logical_pidx in Hchunk. unfold pidx in Hchunk. lia. }
+    assert (Hp0 : pending_size (e_lz e) = 0) by lia.
+    unfold encode_init, has_enough_data. rewrite Hra. cbn [Z.eqb negb].
+    rewrite ck_i32_ok by (unfold I32_MIN, I32_MAX in *; lia). cbn [obind].
+    rewrite Z.sub_0_r.
+    destruct (Z.ltb_spec (read_pos (e_lz e)) (read_limit (e_lz e))) as [Hq|Hq]; cbn [negb].
+    2:{ cbn [okor]. split; [reflexivity|]. split; [reflexivity|]. unfold quiet, pidx. lia. }
+    rewrite ck_i32_ok by (unfold I32_MIN, I32_MAX in *; lia). cbn [obind].
+    eapply okor_bind.
+    { apply (mf_skip_spec p W 1%nat); try lia. left; exact Hp0. }
+    intros [d1 tr1]. cbn [fst snd]. intros (A & B & C & D & E & K & Hbig & F).
+    change (Z.of_nat 1) with 1 in *.
+    destruct (Z.ltb_spec (read_pos d1 - (-1 + 1)) 0); [lia|].
+    destruct (Z.leb_spec (buf_size p) (read_pos d1 - (-1 + 1))); [lia|]. cbn [orb].
+    rewrite ck_i32_ok by (unfold I32_MIN, I32_MAX in *; lia). cbn [obind].
+    change (-1 + 1 - 1 =? -1) with true. cbn [negb].
+    rewrite Hunc. rewrite ck_u32_ok by (unfold U32_MAX; lia). cbn [obind].
+    change (0 + 1 =? 1) with true. cbn [negb okor].
+    injection F as E1 E2 E3 E4.
+    assert (Hpi : pidx (mkEncd d1 (-1 + 1 - 1) (0 + 1) (rc_full e) (g_base e)) = 1).
+    { unfold pidx. cbn [e_lz read_ahead]. lia. }
+    split.
+    { constructor; cbn [e_lz read_ahead unc_size g_base rc_full]; try rewrite Hpi.
+      - constructor; try lia; destruct K as [K|K]; lia.
+      - lia.
+      - lia.
+      - split; assumption.
+      - left; assumption.
+      - left; assumption.
+      - right; lia.
+      - lia.
+      - intros _. left. exact K.
+      - cbn [sum_fill]. rewrite E2, B. exact Hfill.
+      - rewrite logical_pidx. cbn [g_base]. rewrite Hpi. cbn [sum_sym sum_abs]. rewrite E1, E3.
+        rewrite logical_pidx in Hsym. unfold pidx in Hsym. lia.
+      - rewrite logical_pidx. cbn [g_base]. rewrite Hpi. cbn [sum_chunk]. rewrite E4.
+        rewrite logical_pidx in Hchunk. unfold pidx in Hchunk. lia.
+      - cbn [sum_chunk]. rewrite E4. exact Horg. }
+    split.
+    { unfold cap in *. rewrite Hpi. cbn [e_lz unc_size]. unfold pidx in Hcap. lia. }
+    split; [exact Hpi|]. cbn [e_lz g_base unc_size].
+    split; [lia|]. split; [exact B|]. split; [exact C|]. split; [exact D|]. split; [reflexivity|]. split; [reflexivity|].
+    split; [intros Hbg; rewrite Hbig by lia; exact Hp0|].
+    unfold quiet, pidx. lia.
+  Qed.
+
+  (* the symbol loop: ends with no consultation possible; fuel = bytes left in the window + 1 *)
+  Lemma enc_loop1_spec p org : wf_p p -> forall fuel ps e tr,
+    einv p org e tr -> cap e -> 1 <= pidx e ->
+    write_pos (e_lz e) - pidx e + 1 <= Z.of_nat fuel ->
+    okor (enc_loop1 PS parse fuel p ps e tr) (fun r =>
+      let '(e1, ps1, tr1) := r in
+      einv p org e1 tr1 /\ cap e1 /\ quiet e1 /\ pidx e <= pidx e1 /\ read_pos (e_lz e) <= read_pos (e_lz e1) /\
+      write_pos (e_lz e1) = write_pos (e_lz e) /\ read_limit (e_lz e1) = read_limit (e_lz e) /\
+      finishing (e_lz e1) = finishing (e_lz e) /\ g_base e1 = g_base e /\
+      unc_size e1 = unc_size e + (pidx e1 - pidx e) /\
+      pending_size (e_lz e) <= pending_size (e_lz e1) /\
+      (finishing (e_lz e) = false -> read_limit (e_lz e) <= write_pos (e_lz e) - keep_after p ->
+       pending_size (e_lz e1) = pending_size (e_lz e)) /\
+      (quiet e -> e1 = e /\ ps1 = ps /\ tr1 = tr)).
+  Proof.
+    intros W. induction fuel as [|f IH]; intros ps e tr I Hcap Hp1 Hfuel.
+    - exfalso. pose proof (ei_lz _ _ _ _ I) as [[? ?] ? ? ? ?]. pose proof (ei_ra _ _ _ _ I). unfold pidx in *. lia.
+    - cbn [enc_loop1].
+      eapply okor_bind; [apply (encode_symbol_spec p org ps e tr W I Hcap Hp1)|].
+      intros [[[e1 ps1] tr1]|].
+      + intros (I1 & C1 & Q & X1 & X1' & X2 & X3 & X4 & X5 & X6 & X7 & X8).
+        eapply okor_weaken; [apply IH; try assumption; lia|].
+        intros [[e2 ps2] tr2] (I2 & C2 & Q2 & Y1 & Y1' & Y2 & Y3 & Y4 & Y5 & Y6 & Y7 & Y8 & Y9).
+        split; [exact I2|]. split; [exact C2|]. split; [exact Q2|]. split; [lia|]. split; [lia|].
+        split; [congruence|]. split; [congruence|]. split; [congruence|]. split; [congruence|].
+        split; [lia|]. split; [lia|].
+        split; [|intros Q'; contradiction].
+        intros Hnf Hst.
+        rewrite Y8 by (rewrite ?X2, ?X3, ?X4; assumption).
+        apply X8. pose proof (wf_ka p W). unfold quiet in Q. lia.
+      + cbn [okor]. intros Q.
+        split; [exact I|]. split; [exact Hcap|]. split; [exact Q|].
+        repeat split; try lia.
+  Qed.
+
+
+  Lemma encode_for_lzma1_spec p org ps e tr : wf_p p -> einv p org e tr -> cap e ->
+    okor (encode_for_lzma1 PS parse p ps e tr) (fun r =>
+      let '(e1, ps1, tr1) := r in
+      einv p org e1 tr1 /\ cap e1 /\ quiet e1 /\ pidx e <= pidx e1 /\ read_pos (e_lz e) <= read_pos (e_lz e1) /\
+      write_pos (e_lz e1) = write_pos (e_lz e) /\ read_limit (e_lz e1) = read_limit (e_lz e) /\
+      finishing (e_lz e1) = finishing (e_lz e) /\ g_base e1 = g_base e /\
+      unc_size e1 = unc_size e + (pidx e1 - pidx e) /\
+      (quiet e -> e1 = e /\ ps1 = ps /\ tr1 = tr) /\
+      (finishing (e_lz e) = false -> read_limit (e_lz e) <= write_pos (e_lz e) - keep_after p ->
+       pending_size (e_lz e) = 0 -> pending_size (e_lz e1) = 0)).
+  Proof.
+    intros W I Hcap. pose proof W as [W1 W2 W3 W4 W5 W6 W7 W8 W9 W10].
+    pose proof I as [[[Ha Hb] Hc [Hd He] [Hf Hg] Hpb] [Hr1 Hr2] Hmb [Hb1 Hb2] Hh Hdict Hpx Hu HU Hfill Hsym Hchunk Horg].
+    unfold encode_for_lzma1, is_started.
+    destruct (Z.eqb_spec (read_pos (e_lz e)) (-1)) as [Hns|Hst]; cbn [negb].
+    - eapply okor_bind; [apply (encode_init_spec p org e tr W I Hcap Hns)|].
+      intros [[ok e1] tr1]. destruct ok; cbn [negb].
+      + intros (I1 & C1 & P1 & R1 & X2 & X3 & X4 & X5 & X6 & X7 & NQ).
+        assert (Hp0 : pidx e = 0) by (unfold pidx; lia).
+        assert (Hunc : unc_size e = 0).
+        { assert (g_base e = 0) by (destruct Hh; lia). rewrite logical_pidx in Hchunk. lia. }
+        eapply okor_weaken.
+        { apply (enc_loop1_spec p org W); try assumption; try lia.
+          unfold sym_fuel. pose proof (ei_lz _ _ _ _ I1) as [[? ?] ? ? ? ?]. lia. }
+        intros [[e2 ps2] tr2] (I2 & C2 & Q2 & Y1 & Y1' & Y2 & Y3 & Y4 & Y5 & Y6 & Y7 & Y8 & Y9).
+        split; [exact I2|]. split; [exact C2|]. split; [exact Q2|]. split; [lia|]. split; [lia|].
+        split; [congruence|]. split; [congruence|]. split; [congruence|]. split; [congruence|].
+        split; [lia|].
+        split; [intros Q; contradiction|].
+        intros Hnf Hs Hp. rewrite Y8; [apply X7; unfold quiet, pidx in NQ; lia|congruence|congruence].
+      + intros (E1 & E2 & Q). subst e1 tr1. cbn [okor].
+        split; [exact I|]. split; [exact Hcap|]. split; [exact Q|].
+        repeat split; try lia; auto.
+    - assert (Hp1 : 1 <= pidx e) by (destruct Hpx; [lia|assumption]).
+      eapply okor_weaken.
+      { apply (enc_loop1_spec p org W); try assumption. unfold sym_fuel, pidx in *. lia. }
+      intros [[e2 ps2] tr2] (I2 & C2 & Q2 & Y1 & Y1' & Y2 & Y3 & Y4 & Y5 & Y6 & Y7 & Y8 & Y9).
+      split; [exact I2|]. split; [exact C2|]. split; [exact Q2|]. split; [lia|]. split; [lia|].
+      split; [exact Y2|]. split; [exact Y3|]. split; [exact Y4|]. split; [exact Y5|]. split; [exact Y6|].
+      split; [exact Y9|].
+      intros Hnf Hs Hp. rewrite Y8; assumption.
+  Qed.
+
+End Oracle.
